@@ -370,6 +370,22 @@ Definition model_sdoc (fx : fixes) (S : schema) (F : features) (d : sdoc) : opti
   | Forged => None
   end.
 
+(** a subscription: (lines, calls, tree) with the events' data under the key "events" *)
+Definition model_ssub (fx : fixes) (S : schema) (F : features) (events : nat) (d : sdoc) : option sexp :=
+  match snd (run fx S F [] (ssub_prog (sdoc_fuel d) events d)) with
+  | Done (errs, r) =>
+      let lines := tag "lines" (map of_nat (sort_nat errs)) in
+      match r with
+      | None => Some (SL [lines; tag "calls" []; tag "tree" [SSym "no-data"]])
+      | Some None => None
+      | Some (Some (log, vs)) =>
+          Some (SL [lines; tag "calls" (map enc_call log);
+                    tag "tree" [tag "obj" [SL [SStr (bytes_of_string "events");
+                                               tag "list" (map (fun v => match v with Some x => enc_rval x | None => SSym "null" end) vs)]]]])
+      end
+  | Forged => None
+  end.
+
 (** the documents the transcription speaks about: response keys pairwise distinct (the
     field-merging rule and the merging of selection sets are not transcribed), fragment names
     distinct, every spread names a defined fragment, every fragment is spread somewhere *)
@@ -540,6 +556,28 @@ Definition compare_req (S E : schema) (F G : features) (r : list sexp) : option 
                 | None => Some (v_bad "chain")
                 end
             | None => Some (v_bad "chain")
+            end
+          else if String.eqb k "ssub" then
+            match field "doc" r, field1 "events" r with
+            | Some dl, Some (SZ ev) =>
+                match dec_sdoc dl with
+                | Some d =>
+                    if negb (doc_wf d) then Some (v_bad "ssub-not-well-formed")
+                    else
+                    let seen (o : obs) := match o_rest o with
+                                          | [l; t] => SL [l; tag "calls" (map SStr (o_calls o)); t]
+                                          | _ => SL []
+                                          end in
+                    match model_ssub fixed S F (Z.to_nat ev) d, model_ssub fixed E G (Z.to_nat ev) d with
+                    | Some ma, Some mb =>
+                        if negb (sexp_eqb ma (seen a)) then Some (v_mismatch "subscription-full-schema" [ma; seen a])
+                        else if negb (sexp_eqb mb (seen b)) then Some (v_mismatch "subscription-erased-schema" [mb; seen b])
+                        else None
+                    | _, _ => Some (v_mismatch "subscription-program-forged-a-handle-or-ran-out-of-fuel" [])
+                    end
+                | None => Some (v_bad "ssub")
+                end
+            | _, _ => Some (v_bad "ssub")
             end
           else if String.eqb k "sdoc" then
             match field "doc" r with
